@@ -102,10 +102,17 @@ theorem updateHeight_eq (n : Node) (B : Int) (hB : B + 1 < 2 ^ 63) (hl : HR B n.
     updateHeight n = ok { n with height := 1 + max (hOf n.left) (hOf n.right) } := by
   obtain ⟨l1, l2⟩ := hl
   obtain ⟨r1, r2⟩ := hr
-  have e1 : Rs.iadd 64 1 (max (hOf n.left) (hOf n.right)) = ok (1 + max (hOf n.left) (hOf n.right)) :=
-    Rs.iadd_ok (inS64 (by omega) (by omega))
-  simp only [updateHeight, hOf] at e1 ⊢
-  simp [e1]
+  simp only [hOf] at l1 l2 r1 r2 ⊢
+  simp only [updateHeight]
+  -- whatever the operand order of the checked addition: it stays in range, and the sum is `1 + max …`
+  rw [Rs.iadd_ok (inS64 (by omega) (by omega))]
+  first
+    | rfl
+    | (simp only [Res.ok_bind, Res.pure_eq_ok, pure_bind]
+       first
+         | done
+         | rfl
+         | (congr 2; omega))
 
 theorem updateMax_eq (n : Node) : updateMax n = ok { n with max := mOf n.interval.2 n.left n.right } := by
   obtain ⟨iv, v, mx, h, l, r⟩ := n
